@@ -63,7 +63,7 @@ func sessionFuncs(c *core.Ctx) []*ssa.Function {
 func runTok(c *core.Ctx) {
 	P := c.P
 	// (a) fills: each state channel is made with capacity 1 and filled once in the constructor
-	ctor := P.Root.Func("newMergeHandlerSession")
+	ctor := P.Func(P.Root, "newMergeHandlerSession")
 	if ctor == nil {
 		c.NoAnchor(nil, "newMergeHandlerSession")
 		return
@@ -836,7 +836,7 @@ func runOkAgg(c *core.Ctx) {
 	P := c.P
 	msgFn := P.Method(P.Root, "mergeHandlerSessionOKState", "Msg")
 	ready := P.Method(P.Root, "mergeHandlerSessionOKState", "Ready")
-	join := P.Root.Func("joinServerOKMsgs")
+	join := P.Func(P.Root, "joinServerOKMsgs")
 	if msgFn == nil || ready == nil || join == nil {
 		c.NoAnchor(nil, "mergeHandlerSessionOKState.Msg / Ready, joinServerOKMsgs")
 		return
